@@ -24,6 +24,7 @@ nni_mtx_fini(nni_mtx *mtx)
 void
 nni_mtx_lock(nni_mtx *mtx)
 {
+	NNI_VERIF_PT(NNI_VP_MTX_LOCK);
 	nni_plat_mtx_lock(mtx);
 }
 
@@ -31,6 +32,7 @@ void
 nni_mtx_unlock(nni_mtx *mtx)
 {
 	nni_plat_mtx_unlock(mtx);
+	NNI_VERIF_PT(NNI_VP_MTX_UNLOCK);
 }
 
 void
@@ -70,12 +72,14 @@ nni_cv_until(nni_cv *cv, nni_time until)
 void
 nni_cv_wake(nni_cv *cv)
 {
+	NNI_VERIF_PT(NNI_VP_CV_WAKE);
 	nni_plat_cv_wake(cv);
 }
 
 void
 nni_cv_wake1(nni_cv *cv)
 {
+	NNI_VERIF_PT(NNI_VP_CV_WAKE);
 	nni_plat_cv_wake1(cv);
 }
 
